@@ -615,6 +615,9 @@ class TU:
             it = int_type(t)
             if it:
                 return max(1, it[0] // 8)
+            m_ = re.match(r'^(.*?)\s*\[(\d+)\]\s*$', t or '')
+            if m_ and int_type(m_.group(1)):
+                return int(m_.group(2)) * max(1, int_type(m_.group(1))[0] // 8)       # sizeof of an array of integers
             return None
         return None
 
